@@ -27,7 +27,7 @@ ASSUMPTIONS = [
     "documents come from the shared grammar (vf/textgen.py) restricted to the feature set in vf/docdomain.py",
     "plaintext inputs are words/paragraphs over letters, punctuation, tags and code spans separated by blank lines",
 ]
-BUDGET = {"quick": 80, "thorough": 1500}
+BUDGET = {"quick": 150, "thorough": 1800}
 
 
 def _show(s: str, n: int = 800) -> str:
@@ -97,7 +97,8 @@ def _cli(case: dict, note: Note) -> Failure | None:
 
 def _sig_nested_quotes(case: dict, f: Failure) -> bool:
     """Smart quotes only: the second run differs from the first only by converting further straight quotes (a quoted
-    phrase nested inside an already converted one), and without smart quotes the case is idempotent."""
+    phrase nested inside, or next to, one converted by the first run), no pair converted late encloses curly quotes of its
+    own kind, and without smart quotes the case is idempotent."""
     o = dict(case["opts"])
     if not o.get("smartquotes") or case.get("kind", "md") != "md" or not f.bucket.startswith("not-idempotent"):
         return False
@@ -105,18 +106,21 @@ def _sig_nested_quotes(case: dict, f: Failure) -> bool:
     twice = opts.fmt(once, o)
     if len(once) != len(twice):
         return False
+    late: list[int] = []
     for i, (a, b) in enumerate(zip(once, twice)):
         if a == b:
             continue
         if not ((a == "'" and b in "‘’") or (a == '"' and b in "“”")):
             return False
-        # ... and the late conversion lies inside an already converted pair of the OTHER kind, within its paragraph
-        # (a straight pair around a curly pair of the same kind is not this finding)
-        lo = once.rfind("\n\n", 0, i) + 1
-        hi = once.find("\n\n", i)
-        hi = len(once) if hi < 0 else hi
-        op, cl = ("“", "”") if a == "'" else ("‘", "’")
-        if not (op in once[lo:i] and cl in once[i:hi]):
+        late.append(i)
+    # A pair converted late never encloses curly quotes of its own kind: the conversion pattern excludes them from the
+    # quoted content (a straight pair around an already converted pair of the same kind must stay as it is).
+    for k, i in enumerate(late):
+        if twice[i] not in "“‘":
+            continue
+        same = "“”" if twice[i] == "“" else "‘’"
+        j = next((q for q in late[k + 1:] if twice[q] == same[1]), None)
+        if j is not None and any(c in same for c in once[i + 1:j]):
             return False
     o2 = dict(o, smartquotes=False)
     once2 = opts.fmt(case["text"], o2)
@@ -264,6 +268,19 @@ def _sig_code_span_edge_spaces(case: dict, f: Failure) -> bool:
     return re.search(r"(?<!`)(`+) (?:[^`\n]|(?!\1(?!`))`)*[^ `\n](?:[^`\n]|(?!\1(?!`))`)* \1(?!`)", once) is not None
 
 
+def _sig_closing_tag_leaves_container(case: dict, f: Failure) -> bool:
+    """Same root cause as C01's finding of this name: a closing tag alone on an indented line inside a list item or footnote is
+    un-indented by the first run and leaves its container; the second run formats a different document."""
+    import re
+
+    if case.get("kind", "md") != "md" or case["opts"].get("plaintext") or not f.bucket.startswith("not-idempotent"):
+        return False
+    closing = r"(?:\{% /|\{# /|\{\{ /|<!-- /).*(?:%\}|#\}|\}\}|-->)"
+    inside = {m.group(1) for m in re.finditer(r"^[ \t]+(" + closing + r")[ \t]*\\?$", case["text"], re.M)}
+    once = [l.rstrip("\\") for l in opts.fmt(case["text"], dict(case["opts"])).split("\n")]
+    return any(t in once for t in inside)
+
+
 def _sig_tight_list_flips(case: dict, f: Failure) -> bool:
     """list_spacing=preserve: the second run only ADDS blank lines, each directly before a list item marker, and the
     third run changes nothing (a tight list whose item holds several blocks -- e.g. a heading followed by text, or a
@@ -327,7 +344,8 @@ def _sig_blank_lines_settle(case: dict, f: Failure) -> bool:
         o2 = dict(o, smartquotes=False)
         a2 = opts.fmt(case["text"], o2)
         b2 = opts.fmt(a2, o2)
-        return opts.fmt(b2, o2) == b2 and core_lines(a2) == core_lines(b2)
+        # (the blank-line effect must be there without smart quotes as well: a difference in quote style alone is not it)
+        return a2 != b2 and core_lines(a2) == core_lines(b2)
     return True
 
 
@@ -354,9 +372,18 @@ def _sig_ellipsis_before_escape(case: dict, f: Failure) -> bool:
     return re.search(r"\.\.\.[^\s\w]*[ \t]*(?:\n[ \t>]*)?\\|\\[^\w\s][ \t]*(?:\n[ \t>]*)?\.\.\.", once) is not None and opts.fmt(once2, o2) == once2
 
 
+def OPTION_VARIANTS(case: dict) -> list[dict]:
+    """The case with one of the switched-on options switched off (see core.sig_hit)."""
+    if case.get("kind", "md") != "md":
+        return []
+    o = case["opts"]
+    return [dict(case, opts=dict(o, **{k: False})) for k in ("smartquotes", "ellipses", "cleanups", "semantic") if o.get(k)]
+
+
 DECOMPOSE_KEY = "text"  # several recorded findings in one document: see core.sig_hit
 
 SIGS = {
+    "closing_tag_leaves_container": _sig_closing_tag_leaves_container,
     "code_span_edge_spaces": _sig_code_span_edge_spaces,
     "tag_block_heuristics_second_run": _sig_tag_block_heuristics,
     "escaped_numeral_in_tag_paragraph": _sig_escaped_numeral_in_tag_paragraph,
@@ -422,6 +449,7 @@ def shard_work(ctx: Ctx) -> None:
     feat = frozenset(docdomain.features("C02", ctx) | {"no_lone_tick"})
     ctx.run_hypothesis("hazard_words_every_width", _hazard_case(), ctx.n(6000, 300000))
     ctx.run_hypothesis("markdown", _md_case(feat), ctx.n(6000, 300000))
+    ctx.run_hypothesis("markdown_typography", _md_case(frozenset(feat | {"quotes", "dots"})), ctx.n(2000, 100000))
     ctx.run_hypothesis("plaintext", _plaintext_case(), ctx.n(2000, 60000))
     if not ctx.quick:
         ctx.run_hypothesis("cli_inplace_twice", _md_case(feat, "cli"), ctx.n(0, 6000))
